@@ -307,10 +307,16 @@ func (pConn *PFCPConn) doShutdown() {
 	logger.PfcpLog.Infoln("shutdown complete for", rAddr)
 }
 
+// maxSeqNum is the largest sequence number a PFCP header can carry.
+const maxSeqNum = 0x00FFFFFF
+
 func (pConn *PFCPConn) getSeqNum() uint32 {
 	pConn.seqNum.mux.Lock()
 	defer pConn.seqNum.mux.Unlock()
-	pConn.seqNum.seq++
+	// A PFCP sequence number has 24 bits on the wire. Counting on beyond them made every
+	// request after the 16777215th wait for an answer that can never carry its number:
+	// an answering peer was declared dead.
+	pConn.seqNum.seq = (pConn.seqNum.seq + 1) & maxSeqNum
 
 	return pConn.seqNum.seq
 }
